@@ -1083,7 +1083,9 @@ def clht_models(ctx, prop):
     TLC deadlock check."""
     if ctx.thorough:
         variants = {"C03": ["Map"], "C04": ["MapOf"]}.get(prop, ["Map", "MapOf"])
-        sel = [(v, n) for v in variants for n in clht.families()]
+        relevant = {"C05": ("S9-", "S10", "S11", "S12", "S4-"), "C07": ("S14", "S15", "S16"), "C08": ("S4-", "S4b", "S5-", "S6-", "S7-", "S8-"),
+                    "C11": ("S3-", "S13", "S4c", "S17", "S1-"), "C13": ("S4-", "S5-", "S7-", "S8-", "S6b")}.get(prop)
+        sel = [(v, n) for v in variants for n in clht.families() if relevant is None or n.startswith(relevant)]
     else:
         sel = CLHT_QUICK.get(prop, [])
     for (variant, name) in sel:
@@ -1134,7 +1136,9 @@ CIMPL_QUICK = {"C02": ["I2-two-deleteexpired", "I3-lazydelete-vs-set", "I1b-dele
 def cacheimpl_models(ctx, prop):
     """TLC enumerates every interleaving of the cache methods over an atomic map (CacheImpl.tla); every terminal history
     must be accepted by the property-level machine CacheLin - the oracle that also judges the real code."""
-    names = list(cacheimpl.families()) if ctx.thorough else CIMPL_QUICK.get(prop, [])
+    names = CIMPL_QUICK.get(prop, [])
+    if ctx.thorough:
+        names = [n for n in cacheimpl.families() if prop == "C02" or n.startswith({"C06": ("I2", "I5", "I6", "I8"), "C05": ("I4", "I1b", "I2c")}.get(prop, ("I",)))]
     for name in names:
         r = cacheimpl.run_family(name, timeout=7200)
         runs = cacheimpl.to_runs(name, r["family"], r["histories"])
